@@ -839,20 +839,66 @@ func ruleLengthNarrowing(c *Ctx, r *Report) {
 func ruleCanonicalHelloReturned(c *Ctx, r *Report) {
 	const rule = "canonical-hello-returned"
 	n := 0
-	for _, s := range c.CallsTo(nameIs("internal/negotiation.canonicalize")) {
+	// the canonicaliser is recognised by what it does, not by its name: a function of the package
+	// with two message parameters that decodes into the second what the first encodes to
+	type canon struct{ src, dst int }
+	canons := map[*ssa.Function]canon{}
+	for _, f := range c.fnsOfPkg("internal/negotiation") {
+		if f.Parent() != nil || len(f.Blocks) == 0 {
+			continue
+		}
+		for si, sp := range f.Params {
+			for di, dp := range f.Params {
+				if si == di {
+					continue
+				}
+				var enc ssa.Value
+				for _, b := range f.Blocks {
+					for _, in := range b.Instrs {
+						call, ok := in.(*ssa.Call)
+						if !ok || !call.Call.IsInvoke() {
+							continue
+						}
+						if call.Call.Method.Name() == "Marshal" && call.Call.Value == ssa.Value(sp) {
+							enc = call
+						}
+					}
+				}
+				if enc == nil {
+					continue
+				}
+				for _, b := range f.Blocks {
+					for _, in := range b.Instrs {
+						call, ok := in.(*ssa.Call)
+						if !ok || !call.Call.IsInvoke() || call.Call.Method.Name() != "Unmarshal" || call.Call.Value != ssa.Value(dp) || len(call.Call.Args) != 1 {
+							continue
+						}
+						if anyLeaf(c.Origins(call.Call.Args[0], 0), func(l ssa.Value) bool { cl, _ := callOfResult(l); return cl != nil && ssa.Value(cl) == enc }) {
+							canons[f] = canon{si, di}
+						}
+					}
+				}
+			}
+		}
+	}
+	for _, s := range c.CallsTo(func(string) bool { return true }) {
 		call, ok := s.Call.(*ssa.Call)
-		if !ok || len(call.Call.Args) < 2 {
+		if !ok || call.Call.StaticCallee() == nil {
+			continue
+		}
+		cn, isCanon := canons[call.Call.StaticCallee()]
+		if !isCanon || len(call.Call.Args) <= cn.src || len(call.Call.Args) <= cn.dst {
 			continue
 		}
 		fn := s.Fn
 		r.Sites += len(fn.Blocks)
 		n++
-		target := call.Call.Args[1]
+		target := call.Call.Args[cn.dst]
 		if mi, ok := target.(*ssa.MakeInterface); ok {
 			target = mi.X
 		}
 		_, fresh := target.(*ssa.Alloc)
-		src := call.Call.Args[0]
+		src := call.Call.Args[cn.src]
 		if mi, ok := src.(*ssa.MakeInterface); ok {
 			src = mi.X
 		}
